@@ -100,6 +100,8 @@ SHAPES = {
                                    "src/b.f90": "submodule (par) chi\ncontains\n module subroutine w()\n end subroutine w\nend submodule chi\n"},
     "hidden parent type": {"src/t.f90": "module tm\n type, private :: hid\n end type hid\n type, extends(hid), public :: shown\n end type shown\n type(shown) :: v\ncontains\n"
                                         " subroutine pub()\n  call priv()\n end subroutine pub\n subroutine priv()\n end subroutine priv\nend module tm\n"},
+    "capitalised file names": {"src/Shapes.f90": "module shapes\n  !! doc, see [[Shapes.f90]]\n  integer :: n\ncontains\n  subroutine draw()\n    !! draw doc\n  end subroutine draw\nend module shapes\n",
+                               "src/Main.f90": "program main\n  !! main doc\n  use shapes\n  call draw()\nend program main\n"},
     "kitchen sink": KS,
     "constructors local types and file links": {
         "src/tool.c": "/*! a C helper, see [[geo]] */ int tool(void){return 0;}\n",
@@ -128,7 +130,7 @@ def site_problems(files, options):
     f = dict(files)
     if "page_dir" in options:
         f.update(PAGES)
-    meta = ("src_dir: ./src\noutput_dir: ./doc\nextra_filetypes: c //!\nsummary: A summary that links to [[m]] and [[main]] and [home](|url|/index.html)\n"
+    meta = ("src_dir: ./src\noutput_dir: ./doc\nextra_filetypes: c //!\nsummary: A summary that links to [[m]] and [[main]] and [home](|url|/index.html) and <a href=\"|url|/index.html\" class=\"x\">in raw HTML</a>\n"
             "author: Somebody\nauthor_description: Wrote [[m]], see [the lists](|url|/index.html)\n")
     with site.site(f, meta + options) as (pd, status):
         if not status.startswith("ok"):
